@@ -207,6 +207,20 @@ Definition life_writes (c : chan_life) : option (list bytes) :=
     end
   end.
 
+(* channel 0: no setup packet, no packet numbers; its Close is the logout: the LOGOUT package (token, options 0) sent
+   as a message of type NORMAL (the header type after Reset) *)
+Definition logout_message (ps : Z) : message :=
+  {| m_ps := ps; m_typ := buf_normal; m_pkgs := [[[tok_logout]; [0]]] |}.
+
+Definition life0_writes (c : chan_life) : option (list bytes) :=
+  match send_history 0 (cl_msgs c ++ (if cl_close c then [logout_message (cl_ps c)] else [])) {| tq := empty_pq; tnr := 0 |} with
+  | None => None
+  | Some (outs, _) => Some (concat outs)
+  end.
+
+Definition chan_writes (c : chan_life) : option (list bytes) :=
+  if 0 <? cl_id c then life_writes c else life0_writes c.
+
 (* connection-level: every channel has its own send state; a send touches only its own entry *)
 Definition tmap := list (Z * txst).
 Fixpoint tm_find (id : Z) (m : tmap) : option txst :=
